@@ -33,6 +33,8 @@ def number_kinds(r):
         ("int", base), ("float", fl), ("bool", True), ("np.float64", np.float64(fl)), ("np.float32", np.float32(r.choice([2.0, 0.5, 1.5]))),
         ("np.int64", np.int64(base)), ("np.int32", np.int32(base)), ("negative float", -fl), ("float one", 1.0),
         # the neutral / absorbing elements are where shortcuts hide
+        # unsigned and smallest-signed numpy integers (negating or subtracting them inside their own type wraps around)
+        ("np.uint8", np.uint8(2)), ("np.uint16", np.uint16(7)), ("np.uint64", np.uint64(3)), ("np.int8 lowest", np.int8(-128)),
         ("int zero", 0), ("float zero", 0.0), ("np.float64 zero", np.float64(0.0)), ("np.int32 zero", np.int32(0)), ("int one", 1), ("int minus one", -1), ("False", False),
     ]  # fmt: skip
 
@@ -49,6 +51,8 @@ def check(ctx, x, xvals, kname, k, case, is_array, elementwise_k=None):
 
     q = x.GetQuantity()
     items = dims.items_of(q)
+    if (kname.startswith("np.uint") or kname == "np.int8 lowest") and not all(isinstance(v, float) for v in xvals):
+        return  # a Python int met by a narrow numpy integer is numpy's business (it refuses -7 for a uint8), not the library's
     for label, fn, keeps in FORMS:
         ctx.ev()
         key_cls = type(x).__name__
@@ -329,6 +333,25 @@ def run(ctx):
                     for kname, k in number_kinds(r):
                         ctx.nt((cls, cont, len(xvals), qkind, kname))
                         check(ctx, x, xvals, kname, k, case, cls != "scalar")
+                    if cls == "scalar":
+                        # numpy's own idea of a number, a 0-d array, on either side of a Scalar
+                        k0 = r.choice([2.0, 0.5, 3.0])
+                        for kname, k in (("ndarray[f8] 0-d", np.array(k0)), ("ndarray[i8] 0-d", np.array(int(k0) or 2))):
+                            ctx.nt((cls, cont, 1, qkind, kname))
+                            check(ctx, x, xvals, kname, k, case, False, elementwise_k=[k[()]])
+                        # an array of several numbers with a Scalar: by the statement still "a barril object carrying a unit" (an Array
+                        # of x's quantity would be one) - observed and reported under a key of its own (DESIGN.md 9.3)
+                        kv = np.array([2.0, 4.0])
+                        for side, fn in (("x*k", lambda: x * kv), ("k*x", lambda: kv * x), ("x+k", lambda: x + kv), ("k-x", lambda: kv - x), ("k/x", lambda: kv / x)):
+                            ctx.ev()
+                            try:
+                                res = fn()
+                                what = "barril object" if hasattr(res, "GetQuantity") else "bare %s" % type(res).__name__
+                            except Exception as e:
+                                what = "raised %s" % type(e).__name__
+                            ctx.count("Scalar with an ndarray of several numbers: %s -> %s" % (side, what))
+                            if what != "barril object":
+                                ctx.violation("scalar-with-ndarray-of-several-numbers:%s:%s" % ("array-on-the-right" if side.startswith("x") else "array-on-the-left", what.replace(" ", "-")), dict(case, form=side, outcome=what))
                     if cls != "scalar":
                         kf = np.array([r.choice([2.0, 0.5, 3.0, 0.1]) for _ in xvals], dtype=float)
                         ki = np.array([r.choice([2, 3, 5]) for _ in xvals], dtype=np.int64)
